@@ -24,14 +24,20 @@ class Known:
         w = next((w for w in f.get("witnesses", []) if w.get("kind") == "asm"), None)
         return "%s [%s] witness %s" % (f["class"], f["site"], "".join(w["lines"]).strip().replace("\n", " / ") if w else "")
 
-    def classify(self, lines, desc, obs):
+    def classify(self, lines, desc, obs, k=None):
+        """class of the failure at statement k (None / -1: the program as a whole)"""
         if desc.get("kind") == "fuzz":
             c = classify_fuzz(self.entries, lines, desc, obs)
             if c is not None:
                 return c
+        d = desc
+        if desc.get("kind") in ("prog", "branch", "pcr", "pcr-multi", "mut", "random", "edge", "pcr-family", "include") and k is not None and k >= 0:
+            d = describe_stmt(lines, k, obs) or desc
+        if k == -1:
+            d = dict(desc, _whole=True)
         for fid in self.entries:
             pred = PREDICATES.get(fid)
-            if pred is not None and pred(lines, desc, obs):
+            if pred is not None and pred(lines, d, obs):
                 return fid
         return None
 
@@ -235,3 +241,114 @@ def classify_fuzz(pid_entries, lines, desc, obs):
         if pred is not None and pred(lines, d, obs):
             return fid
     return None
+
+
+def describe_stmt(lines, k, obs):
+    """grid/label-style description of statement k of a program, from its text (and the symbol values of obs)"""
+    st = statements(lines)
+    if k >= len(st):
+        return None
+    lb, mn, op = st[k]
+    labels, equs = symbol_kinds(lines)
+    d = describe_operand(mn, op)
+    if d is not None:
+        d["stmt"] = k
+        return d
+    symd = {}
+    if obs[0] == "OK":
+        symd = {n: (int(h, 16) if h else None) for n, h in obs[5]}
+    for f, rx in [("imm", r"^#([A-Za-z0-9@]+)$"), ("dir", r"^<([A-Za-z0-9@]+)$"), ("ext", r"^>([A-Za-z0-9@]+)$"),
+                  ("extind", r"^\[([A-Za-z0-9@]+)\]$"), ("plain", r"^([A-Za-z0-9@]+)$")]:
+        m = re.match(rx, op)
+        if m and m.group(1) in labels:
+            return {"kind": "label-ref", "mn": mn, "form": f, "value": symd.get(m.group(1)), "stmt": k, "spelling": "label"}
+        if m and m.group(1) in equs:
+            return {"kind": "grid", "mn": mn, "form": f, "value": symd.get(m.group(1)), "stmt": k, "spelling": "equ-dec"}
+    return {"kind": "stmt", "mn": mn, "operand": op, "stmt": k}
+
+
+def p_noncontiguous_origin(lines, desc, obs):
+    if not desc.get("_whole"):
+        return False
+    st = statements(lines)
+    orgs = [k for k, (lb, mn, op) in enumerate(st) if mn == "ORG"]
+    emitting_before = any(mn not in ("ORG", "NAM", "EQU", "SETDP", "END") for lb, mn, op in st[:orgs[0]]) if orgs else False
+    return len(orgs) > 1 or emitting_before
+
+
+PREDICATES["noncontiguous_origin"] = p_noncontiguous_origin
+_old_low = p_low_address_label
+
+
+def p_low_address_label2(lines, desc, obs):
+    if desc.get("kind") == "label-ref":
+        return desc.get("form") in ("plain", "dir", "ext", "extind", "imm") and desc.get("value") is not None and desc["value"] < 256
+    return _old_low(lines, desc, obs)
+
+
+_old_imm8 = p_imm8_out_of_range
+
+
+def p_imm8_out_of_range2(lines, desc, obs):
+    if desc.get("kind") == "label-ref":
+        return desc.get("form") == "imm" and not imm_is_16(desc)
+    return _old_imm8(lines, desc, obs)
+
+
+_old_fdl = p_forced_direct_label
+
+
+def p_forced_direct_label2(lines, desc, obs):
+    if desc.get("kind") == "label-ref":
+        return desc.get("form") == "dir"
+    return _old_fdl(lines, desc, obs)
+
+
+PREDICATES.update({"low_address_label": p_low_address_label2, "imm8_out_of_range": p_imm8_out_of_range2, "forced_direct_label": p_forced_direct_label2})
+
+
+def p_address_expression_below_zero(lines, desc, obs):
+    """label-k (as a PCR target or an absolute operand) where the label's address is smaller than k"""
+    if obs[0] != "OK":
+        return False
+    symd = {n: (int(h, 16) if h else None) for n, h in obs[5]}
+    st = statements(lines)
+    k = desc.get("stmt")
+    cand = [st[k]] if isinstance(k, int) and 0 <= k < len(st) else st
+    for lb, mn, op in cand:
+        m = re.match(r"^[#<>\[]*([A-Za-z][A-Za-z0-9@]*)-(\d+)", op)
+        if m and symd.get(m.group(1)) is not None and symd[m.group(1)] < int(m.group(2)):
+            return True
+    return False
+
+
+PREDICATES["address_expression_below_zero"] = p_address_expression_below_zero
+
+
+def p_symbol_in_data(lines, desc, obs):
+    return desc.get("kind") == "data" and bool(desc.get("has_symbol"))
+
+
+def p_data_value_width(lines, desc, obs):
+    """FCB/FDB: a single negative value, or any value outside the directive's range"""
+    if desc.get("kind") != "data" or desc.get("has_symbol"):
+        return False
+    lo, hi = (-128, 255) if desc.get("mn") == "FCB" else (-32768, 65535)
+    vals = desc.get("vals", [])
+    if any(not lo <= v <= hi for v in vals):
+        return True
+    return bool(desc.get("single")) and any(v < 0 for v in vals)
+
+
+PREDICATES.update({"symbol_in_data": p_symbol_in_data, "data_value_width": p_data_value_width})
+
+
+# ---- C04: the expression positions / operand kinds on which the unchanged tree fails (committed table) ----
+def c04_key(desc):
+    """(position, operand kinds, operator, literal spelling class, result class)"""
+    et = desc.get("etxt", "")
+    sp = "bin" if "%" in et else "plain"
+    terms = desc.get("terms", [])
+    small = all(t[0] == "label" or t[-1] < 256 for t in terms)
+    res = "divzero" if desc.get("divzero") else ("mayreject" if desc.get("may_reject") else "inrange")
+    return "|".join([desc.get("pos", ""), ",".join(desc.get("kinds", ())), desc.get("op") or "", sp, "small" if small else "big", res])
